@@ -437,6 +437,15 @@ def rule_gate_table(ctx: Ctx) -> None:
             a = call_attr(gc)
             if a == "apply_conditioned_gate":
                 g = get_kw(gc, "gate")
+                if isinstance(g, ast.Subscript) and isinstance(g.value, ast.Attribute) and norm(g.value.value) == "self" and "type(" in norm(g.slice):
+                    # gate looked up in a class-level table keyed by the operation class: take this class's entry
+                    sci = repo.cls("StabilizerCompiler", STAB)
+                    tbl = g.value.attr
+                    for st_ in sci.node.body:
+                        if isinstance(st_, ast.Assign) and any(isinstance(t, ast.Name) and t.id == tbl for t in st_.targets) and isinstance(st_.value, ast.Dict):
+                            for k_, v_ in zip(st_.value.keys, st_.value.values):
+                                if k_ is not None and (dotted(k_) or "").split(".")[-1] == c.name:
+                                    g = v_
                 tname = cond.get(g.value) if isinstance(g, ast.Constant) else None
                 if tname is None:
                     raise AnalysisError(f"{STAB}: conditioned gate tag not resolvable: {short(gc)}")
